@@ -360,7 +360,7 @@ func GenMsgRecipe(t *rapid.T, hostile bool) *MsgRecipe {
 	r := &MsgRecipe{
 		ID: rapid.Uint16().Draw(t, "id"), Response: rapid.Bool().Draw(t, "qr"), AA: rapid.Bool().Draw(t, "aa"), TC: rapid.Bool().Draw(t, "tc"),
 		RD: rapid.Bool().Draw(t, "rd"), RA: rapid.Bool().Draw(t, "ra"), Zero: rapid.Bool().Draw(t, "z"), AD: rapid.Bool().Draw(t, "ad"), CD: rapid.Bool().Draw(t, "cd"),
-		Opcode:   rapid.SampledFrom([]int{0, 0, 0, 1, 2, 4, 5, 15}).Draw(t, "opcode"),
+		Opcode:   rapid.SampledFrom([]int{0, 0, 0, 0, 1, 2, 4, 5, 15, 16, 17, 31, 32, 255, -1}).Draw(t, "opcode"), // the field is an int: out-of-range values are packed unmasked by the library
 		Rcode:    rapid.SampledFrom([]int{0, 0, 0, 0, 0, 2, 3, 3, 5, 15, 16, 23, 4095, 255, 256, 4096, -1}).Draw(t, "rcode"),
 		Compress: rapid.Bool().Draw(t, "compress"),
 	}
